@@ -347,6 +347,22 @@ fn sub_link(l: &Link, a: f64, b: f64) -> Link {
             .filter(|r| r.offset_end.value > a && r.offset_start.value < b)
             .map(|r| SpeedLimit { offset_start: (r.offset_start.value.max(a) - a) * uc::M, offset_end: (r.offset_end.value.min(b) - a) * uc::M, speed: r.speed })
             .collect();
+        // clipping can make two restrictions cover the same stretch: keep the tighter one (the pointwise minimum is
+        // what counts) and the order validation asks for
+        o.speed_limits.sort_by(|x, y| x.partial_cmp(y).unwrap_or(std::cmp::Ordering::Equal));
+        let mut kept: Vec<SpeedLimit> = vec![];
+        for r in o.speed_limits.drain(..) {
+            match kept.iter_mut().find(|k| k.offset_start == r.offset_start && k.offset_end == r.offset_end) {
+                Some(k) => {
+                    if r.speed < k.speed {
+                        k.speed = r.speed;
+                    }
+                }
+                None => kept.push(r),
+            }
+        }
+        kept.sort_by(|x, y| x.partial_cmp(y).unwrap_or(std::cmp::Ordering::Equal));
+        o.speed_limits = kept;
         o
     };
     out.speed_set = l.speed_set.as_ref().map(cut_set);
